@@ -488,8 +488,18 @@ def default_contract(item, inferred=None):
             'ensures': ', '.join(c['fixed_ensures'] + alive['ensures'])}
 
 
-def emit_fn(item, fns_spec, loops_spec, used_fn, used_loop, defaulted, inferred=None):
+def emit_fn(item, fns_spec, loops_spec, used_fn, used_loop, defaulted, inferred=None, external=()):
     sp = fns_spec.get(item.name)
+    if sp is not None and item.name in external:
+        # fallback: the body is outside what the rewrites / Verus can take; its contract is assumed in this run (and says so)
+        sp = dict(sp)
+        sp['external_body'] = ''
+        sp.pop('proof_entry', None)
+        for k in list(getattr(loops_spec, 'closures', {})):
+            if k[0] == item.name:
+                used_loop.add((k[0], 'closure', k[1]))
+        used_loop |= set(k for k in loops_spec if k[0] == item.name)
+        loops_spec = Loops()
     if sp is None:
         sp = default_contract(item, inferred)
         if sp:
@@ -570,7 +580,7 @@ def emit_const(item):
     return spec + exec_
 
 
-def assemble(ex, prelude, fns_spec, loops_spec, stubs, top=None, inferred=None, with_bt=True, only_bt=False):
+def assemble(ex, prelude, fns_spec, loops_spec, stubs, top=None, inferred=None, with_bt=True, only_bt=False, external=()):
     """-> (unit text, linemap [(unit_line, repo_path, repo_line, item name)], info)"""
     used_fn, used_loop, defaulted = set(), set(), []
     chunks = []   # (text, item or None)
@@ -603,7 +613,7 @@ def assemble(ex, prelude, fns_spec, loops_spec, stubs, top=None, inferred=None, 
         head = ex['impl_parser_header'] if owner == 'Parser' else 'impl %s' % owner
         chunks.append((head + ' {\n', None))
         for it in its:
-            chunks.append((emit_fn(it, fns_spec, loops_spec, used_fn, used_loop, defaulted, inferred), it))
+            chunks.append((emit_fn(it, fns_spec, loops_spec, used_fn, used_loop, defaulted, inferred, external), it))
         chunks.append(('}\n', None))
     for it in items:
         if it.kind == 'fn' and not it.owner:
